@@ -450,7 +450,7 @@ fn t2_buf_single() {
     run2([B_BUF, B_SINGLE], [1, 1], 2, 2, false);
 }
 
-// @verif family=TBMC hook=1 ignorefn=TProbeA thorough=C03,C01,C02,C04,C09 timeout=2400 mem=40
+// @verif family=TBMC hook=1 ignorefn=TProbeA quick=C09 thorough=C03,C01,C02,C04 timeout=2400 mem=40
 // @bounds kind=ConIterOfIter<usize,TProbe*> len<=2; thread 0: next_id_and_value(), thread 1: buffered_iter(2).next() (the chunk pull is the last thread: hang detection applies to it); <=7 events per thread + solo; all interleavings
 #[kani::proof]
 #[kani::unwind(12)]
@@ -504,6 +504,14 @@ fn t3_single_single_single() {
 #[kani::unwind(12)]
 fn t2_single_skip() {
     run2([B_SINGLE, B_SKIP | B_LEN], [1, 2], 2, 2, false);
+}
+
+// @verif family=TBMC hook=1 ignorefn=TProbeA quick=C06 thorough=C11,C09 timeout=2400 mem=40 optcov=both|wait
+// @bounds kind=ConIterOfIter<usize,TProbe*> len<=1; thread 0: next_chunk(n<=2) (a short or empty chunk, in flight while the other thread skips); thread 1 (last): skip_to_end then has_more; <=7 guessed events per thread + solo; all interleavings
+#[kani::proof]
+#[kani::unwind(12)]
+fn t2_chunk_skip() {
+    run2([B_CHUNK, B_SKIP | B_LEN], [1, 2], 1, 2, false);
 }
 
 // NOTE: TBMC harnesses with enumerate_for_each on the wrapper (one thread looping until the end while another
